@@ -13,6 +13,16 @@ use crate::schemes::*;
 use enr::{CombinedKey, Enr, EnrKey};
 use rayon::prelude::*;
 use serde_json::{json, Value};
+use std::sync::atomic::{AtomicBool, Ordering};
+
+static QUIET: AtomicBool = AtomicBool::new(false);
+macro_rules! say {
+    ($($a:tt)*) => {
+        if !QUIET.load(Ordering::Relaxed) {
+            println!($($a)*);
+        }
+    };
+}
 
 /// C03 only: an `Enr<CombinedKey>` updated with keys of *both* schemes, depth 2 over the core
 /// alphabet. No model (the statements do not cover cross-scheme updates); oracle = no panic.
@@ -20,7 +30,7 @@ pub fn cross_scheme_histories(rep: &mut Report) {
     let mut scratch = Report::default();
     let roots: Vec<Enr<CombinedKey>> = inits()
         .iter()
-        .filter(|i| ["minimal", "all6+custom"].contains(&i.label.as_str()))
+        .filter(|i| ["minimal", "all6+custom", "minimal@seq2^64-2", "minimal@seq2^64-1", "pad300@seq127"].contains(&i.label.as_str()))
         .flat_map(|i| {
             let a = hist::make_init::<CombSecpS>(i, &mut scratch).map(|n| n.enr);
             let b = hist::make_init::<CombEdS>(i, &mut scratch).map(|n| n.enr);
@@ -48,6 +58,7 @@ pub fn cross_scheme_histories(rep: &mut Report) {
                 let key = mk(ki);
                 let out = real::apply(&mut e2, a, &key, &pks);
                 let mut v = vec![];
+                let mut v2: Vec<Viol> = vec![];
                 let keyl = ["secp-k0", "ed-k0", "secp-k1", "ed-k1"][ki];
                 let mut bad = |clause: String, p: String| {
                     v.push(Viol {
@@ -61,10 +72,41 @@ pub fn cross_scheme_histories(rep: &mut Report) {
                 if let ROut::Panic(p) = &out {
                     bad("mutator panics".into(), p.clone());
                 }
+                // statement-level oracles that need no model: C07 (+1 / exact set / no wrap) and C06 (Err => untouched)
+                let (before, after) = (real::observe(e), real::observe(&e2));
+                let mut other = |prop: &'static str, clause: String| {
+                    v2.push(Viol {
+                        prop,
+                        sig: format!("{prop}|combined cross-scheme|{}|signer={keyl}|{clause}", a.label()),
+                        what: format!("Enr<CombinedKey> {} signed by {keyl} at depth {depth}: {clause}", a.label()),
+                        rank: depth,
+                        replay: json!({"engine":"cross-scheme","start_hex":hex::encode(real::encode(e)),"act":a,"signer":keyl}),
+                    });
+                };
+                match &out {
+                    ROut::Ok(_) => {
+                        let want = match a {
+                            Act::SetSeq(v) => Some(*v),
+                            _ => before.seq.checked_add(1),
+                        };
+                        match want {
+                            Some(w) if after.seq != w => other("C07", format!("sequence number after a successful update is {} (expected {})", seq_label(after.seq), seq_label(w))),
+                            None => other("C07", "update at 2^64-1 succeeded".into()),
+                            _ => {}
+                        }
+                    }
+                    ROut::Err(k) => {
+                        if before != after {
+                            other("C06", format!("record changed after Err({k:?})"));
+                        }
+                    }
+                    ROut::Panic(_) => {}
+                }
                 for (l, p) in real::sweep(&e2, &PROBE_KEYS) {
                     bad(format!("{l} panics on the record held after the call"), p);
                 }
                 let keep = matches!(out, ROut::Ok(_)) && v.is_empty() && depth == 1 && (ki == 0 || ki == 1);
+                v.extend(v2);
                 (if keep { Some(e2) } else { None }, v)
             })
             .collect();
@@ -91,9 +133,9 @@ fn replay_hist<S: Sch>(v: &Value) -> i32 {
     let init_hex = v["init_record_hex"].as_str().unwrap_or("");
     let steps: Vec<Step> = serde_json::from_value(v["steps"].clone()).unwrap_or_default();
     let bytes = hex::decode(init_hex).unwrap_or_default();
-    println!("scheme {}  initial record {} ({} bytes)", S::NAME, v["init"], bytes.len());
+    say!("scheme {}  initial record {} ({} bytes)", S::NAME, v["init"], bytes.len());
     let Ok(Ok((mut e, _))) = real::decode::<S::K>(&bytes) else {
-        println!("  the initial record does not decode under this key type");
+        say!("  the initial record does not decode under this key type");
         return 1;
     };
     let mut m = MState { owner: 0, seq: e.seq(), pairs: real::pairs_of(&e), siglen: e.signature().len() };
@@ -105,46 +147,46 @@ fn replay_hist<S: Sch>(v: &Value) -> i32 {
         let before = real::observe(&e);
         let out = real::apply(&mut e, &st.act, &key, &pks);
         let pred = predict(&m, st, &si);
-        println!("step {i}: {} signed by k{}", st.act.label(), st.signer);
-        println!("  implementation: {out:?}");
-        println!("  model: must-succeed={} admissible-errors={:?}", pred.errs.is_empty(), pred.errs);
+        say!("step {i}: {} signed by k{}", st.act.label(), st.signer);
+        say!("  implementation: {out:?}");
+        say!("  model: must-succeed={} admissible-errors={:?}", pred.errs.is_empty(), pred.errs);
         let after = real::observe(&e);
         match &out {
             ROut::Ok(_) => {
                 for (p, clause, detail) in hist::invariant::<S>(&e, &after, Some(st.signer)) {
-                    println!("  INVARIANT {p}: {clause} {detail}");
+                    say!("  INVARIANT {p}: {clause} {detail}");
                     bad += 1;
                 }
                 if let Some(ok) = &pred.ok {
                     let rp: Pairs = after.pairs.iter().cloned().collect();
                     if rp != ok.state.pairs || after.seq != ok.state.seq {
-                        println!("  MODEL MISMATCH: pairs/seq differ from the map model");
+                        say!("  MODEL MISMATCH: pairs/seq differ from the map model");
                         bad += 1;
                     }
                     m = ok.state.clone();
                 } else {
-                    println!("  MODEL: this call had to fail with one of {:?}", pred.forced);
+                    say!("  MODEL: this call had to fail with one of {:?}", pred.forced);
                     bad += 1;
                     m = MState { owner: st.signer, seq: after.seq, pairs: after.pairs.iter().cloned().collect(), siglen: after.sig.len() };
                 }
             }
             ROut::Err(k) => {
                 if before != after {
-                    println!("  ATOMICITY: the record changed although the call returned Err");
+                    say!("  ATOMICITY: the record changed although the call returned Err");
                     bad += 1;
                 }
                 if !pred.errs.contains(k) {
-                    println!("  ERROR KIND: {k:?} is not admissible for this call");
+                    say!("  ERROR KIND: {k:?} is not admissible for this call");
                     bad += 1;
                 }
             }
             ROut::Panic(p) => {
-                println!("  PANIC: {p}");
+                say!("  PANIC: {p}");
                 bad += 1;
             }
         }
         for (l, p) in real::sweep(&e, &PROBE_KEYS) {
-            println!("  PANIC in {l}: {p}");
+            say!("  PANIC in {l}: {p}");
             bad += 1;
         }
     }
@@ -157,7 +199,7 @@ fn replay_hist<S: Sch>(v: &Value) -> i32 {
 
 fn replay_input(v: &Value) -> i32 {
     let bytes = hex::decode(v["input_hex"].as_str().unwrap_or("")).unwrap_or_default();
-    println!("input ({} bytes): {}", bytes.len(), v["label"]);
+    say!("input ({} bytes): {}", bytes.len(), v["label"]);
     let c = input::Case { label: v["label"].as_str().unwrap_or("replay").to_string(), bytes: bytes.clone(), devs: v["deviations"].as_u64().unwrap_or(1) as usize, family: "structural" };
     for o in input::decode_all(&bytes) {
         let r = match &o.res {
@@ -165,11 +207,11 @@ fn replay_input(v: &Value) -> i32 {
             Ok(Err(e)) => format!("Err({e})"),
             Err(p) => format!("PANIC {p}"),
         };
-        println!("  decode::<{}> = {r}   reference: {:?}", o.kt.name(), short(&refspec::ref_decode(&bytes, o.kt)));
+        say!("  decode::<{}> = {r}   reference: {:?}", o.kt.name(), short(&refspec::ref_decode(&bytes, o.kt)));
     }
     let j = input::judge(&c);
     for vi in &j.viols {
-        println!("  {} {}", vi.prop, vi.what);
+        say!("  {} {}", vi.prop, vi.what);
     }
     if j.viols.is_empty() {
         0
@@ -188,7 +230,7 @@ fn short(v: &refspec::Verdict) -> String {
 
 fn replay_text(v: &Value) -> i32 {
     let t = v["text"].as_str().unwrap_or("");
-    println!("text: {t:?}");
+    say!("text: {t:?}");
     let mut bad = 0;
     for o in input::parse_all(t) {
         let rv = refspec::ref_parse_text(t, o.kt);
@@ -197,7 +239,7 @@ fn replay_text(v: &Value) -> i32 {
             Ok(Err(e)) => format!("Err({e})"),
             Err(p) => format!("PANIC {p}"),
         };
-        println!("  str::parse::<{}> = {r}   strict reference parser: {}", o.kt.name(), short(&rv));
+        say!("  str::parse::<{}> = {r}   strict reference parser: {}", o.kt.name(), short(&rv));
         if matches!(o.res, Ok(Ok(_))) && rv.is_reject() || o.res.is_err() {
             bad += 1;
         }
@@ -216,7 +258,7 @@ fn replay_suffix(v: &Value) -> i32 {
             Ok(Err(e)) => format!("Err({e})"),
             Err(p) => format!("PANIC {p}"),
         };
-        println!("  decode::<{}>: item alone ({} bytes) = {}; item+suffix ({} bytes) = {}", a.kt.name(), item.len(), f(&a), whole.len(), f(&b));
+        say!("  decode::<{}>: item alone ({} bytes) = {}; item+suffix ({} bytes) = {}", a.kt.name(), item.len(), f(&a), whole.len(), f(&b));
         if !item.is_empty() && matches!(a.res, Ok(Ok(_))) != matches!(b.res, Ok(Ok(_))) {
             bad = 1;
         }
@@ -231,7 +273,7 @@ fn replay_builder<S: Sch>(v: &Value) -> i32 {
     let mut b = Enr::<S::K>::builder();
     let mut st = BState::default();
     for c in &calls {
-        println!("builder.{}", c.label());
+        say!("builder.{}", c.label());
         real::builder_apply_real(&mut b, c);
         builder_apply(&mut st, c);
     }
@@ -242,16 +284,16 @@ fn replay_builder<S: Sch>(v: &Value) -> i32 {
         let p = builder_predict(&st, s, 64, &si);
         match r {
             Ok(Ok(e)) => {
-                println!("build(k{s}) = Ok; model: must-fail={:?}", p.forced);
+                say!("build(k{s}) = Ok; model: must-fail={:?}", p.forced);
                 let obs = real::observe(&e);
                 for (pp, clause, detail) in hist::invariant::<S>(&e, &obs, Some(s)) {
-                    println!("  INVARIANT {pp}: {clause} {detail}");
+                    say!("  INVARIANT {pp}: {clause} {detail}");
                     bad = 1;
                 }
                 if let Some(m) = &p.ok {
                     st.content = m.pairs.clone();
                     if real::pairs_of(&e) != m.pairs {
-                        println!("  MODEL MISMATCH: built pairs differ from the map model");
+                        say!("  MODEL MISMATCH: built pairs differ from the map model");
                         bad = 1;
                     }
                 } else {
@@ -259,13 +301,13 @@ fn replay_builder<S: Sch>(v: &Value) -> i32 {
                 }
             }
             Ok(Err(e)) => {
-                println!("build(k{s}) = Err({e}); model: admissible {:?}", p.errs);
+                say!("build(k{s}) = Err({e}); model: admissible {:?}", p.errs);
                 if !p.errs.contains(&real::err_kind(&e)) {
                     bad = 1;
                 }
             }
             Err(pn) => {
-                println!("build(k{s}) PANIC {pn}");
+                say!("build(k{s}) PANIC {pn}");
                 bad = 1;
             }
         }
@@ -283,8 +325,27 @@ pub fn replay_file(path: &str) -> i32 {
         eprintln!("not JSON: {path}");
         return 2;
     };
-    println!("property {}  signature {}", v["property"], v["signature"]);
-    println!("recorded: {}", v["what"]);
+    replay_value(&v)
+}
+
+/// Re-executes a recorded case silently: Some(true) reproduced, Some(false) not reproduced,
+/// None when the engine has no re-execution (the case is self-describing).
+pub fn reproduces(v: &Value) -> Option<bool> {
+    match v["engine"].as_str().unwrap_or("") {
+        "hist" | "builder" | "input" | "text" | "suffix" => {
+            QUIET.store(true, Ordering::Relaxed);
+            let rc = replay_value(v);
+            QUIET.store(false, Ordering::Relaxed);
+            Some(rc == 1)
+        }
+        _ => None,
+    }
+}
+
+pub fn replay_value(v: &Value) -> i32 {
+    let v = v.clone();
+    say!("property {}  signature {}", v["property"], v["signature"]);
+    say!("recorded: {}", v["what"]);
     let engine = v["engine"].as_str().unwrap_or("");
     let scheme = v["scheme"].as_str().unwrap_or("");
     macro_rules! by_scheme {
@@ -313,12 +374,12 @@ pub fn replay_file(path: &str) -> i32 {
         "text" => replay_text(&v),
         "suffix" => replay_suffix(&v),
         _ => {
-            println!("engine '{engine}': the recorded case is self-describing:");
-            println!("{}", serde_json::to_string_pretty(&v).unwrap_or_default());
+            say!("engine '{engine}': the recorded case is self-describing:");
+            say!("{}", serde_json::to_string_pretty(&v).unwrap_or_default());
             1
         }
     };
-    println!("{}", if rc == 1 { "REPRODUCED" } else if rc == 0 { "not reproduced on this tree" } else { "replay error" });
+    say!("{}", if rc == 1 { "REPRODUCED" } else if rc == 0 { "not reproduced on this tree" } else { "replay error" });
     let _ = KeyType::ALL;
     rc
 }
